@@ -33,7 +33,7 @@ def slice(ctx: fw.Ctx) -> fw.Outcome:
     out = fw.Outcome(RULE)
     rng = ctx.sub("c10")
     prof = gen.Profile(meta_fields=0.4, tricky_text=0.6, exotic_pad=0.25, exotic_digits=0.2, max_tracks=0, max_events=0, max_tempo=1,
-                       garbage=0.3, unknown_sections=0.0)
+                       garbage=0.3, unknown_sections=0.0, dup_fields=0.15)
     cases = []
     n = ctx.n(250, 25_000)
     for k in range(n):
@@ -81,7 +81,61 @@ def slice(ctx: fw.Ctx) -> fw.Outcome:
         elif pj(dy) != truth:
             out.model_bug("metadata", rp, model=common.short(str(pj(dy))), promised=common.short(str(truth)))
     order_law(ctx, out)
+    direct(ctx, out)
     return out
+
+
+BREAKS = ["\u2028", "\u2029", "\x85", "\x0b", "\x0c", "\x1c", "\x1d", "\x1e", "\r"]  # line boundaries for str.splitlines, ordinary characters for a field value
+
+
+def direct(ctx, out):
+    """Metadata.from_chart_lines called directly (list, tuple, one-shot iterator): values the file reader could never deliver in one
+    line (they contain a character str.splitlines breaks at) are still ordinary values here; zero and its spellings are values, not
+    absence; a field's value never reaches another field"""
+    rng = ctx.sub("direct")
+    prof = gen.Profile(tricky_text=0.7)
+    for k in range(ctx.n(120, 12_000)):
+        fields = rng.sample(gen.FIELDS[1:], rng.randint(0, 6))
+        want = {}
+        lines = []
+        res = rng.choice(["0", "00", "\"0\"", "192", "1", "٠", "０", "480"])
+        lines.append(f"  Resolution = {res}")
+        want["resolution"] = "i" + str(int(res.strip('"')))
+        for snake, pascal, kind in fields:
+            if kind == "int":
+                v = rng.choice(["0", "00", "\"0\"", "7", str(rng.randint(0, 10**6))])
+                want[snake] = "i" + str(int(v.strip('"')))
+                lines.append(f"  {pascal} = {v}")
+            elif kind == "p2":
+                v = rng.choice(["bass", "rhythm"])
+                want[snake] = "p" + impl.cps(v)
+                lines.append(f"  {pascal} = {v}")
+            else:
+                v = gen.rand_value(rng, prof).replace("\n", "")
+                if rng.random() < 0.5:
+                    other = rng.choice(gen.FIELDS[1:])[1]
+                    v = v + rng.choice(BREAKS) + rng.choice(["", "  ", f"  {other} = \"polka\"", f"{other} = 5"]) + rng.choice(["", "x"])
+                want[snake] = "s" + impl.cps(v)
+                lines.append(f"  {pascal} = \"{v}\"")
+        rng.shuffle(lines)
+        form = rng.choice(["list", "tuple", "iter", "gen"])
+        arg = lines if form == "list" else tuple(lines) if form == "tuple" else iter(lines) if form == "iter" else (l for l in lines)
+        got = song_dump(arg)
+        rp = {"op": "direct", "lines": lines, "form": form}
+        out.case("D" + fw.h(rp), True, None, tags=["direct-" + form])
+        if got.startswith("E "):
+            out.violation("direct-" + fw.h(rp), f"Metadata.from_chart_lines({form} of {len(lines)} canonical field lines) raised {got}", {**rp, "want": want},
+                          observed=got, promised="a Metadata")
+            continue
+        vals = dict(zip(impl.field_order(), got.split(" ")))
+        bad = [(f, vals.get(f), w) for f, w in want.items() if vals.get(f) != w]
+        # fields without a line keep their defaults: compare with the parse of the Resolution line alone
+        base = dict(zip(impl.field_order(), song_dump([l for l in lines if "Resolution = " in l]).split(" ")))
+        bad += [(f, v, base.get(f)) for f, v in vals.items() if f not in want and v != base.get(f)]
+        if bad:
+            f, g_, w = bad[0]
+            out.violation("direct-" + fw.h(rp), f"Metadata.from_chart_lines ({form}): field {f} decoded as {g_}, written/default {w}", {**rp, "want": want},
+                          observed=str(g_), promised=str(w))
 
 
 def order_law(ctx, out):
@@ -103,6 +157,13 @@ def order_law(ctx, out):
 
 
 def replay(ctx, data):
+    if data["op"] == "direct":
+        got = song_dump(list(data["lines"]) if data["form"] in ("list", "tuple") else iter(data["lines"]))
+        if got.startswith("E "):
+            return True, got
+        vals = dict(zip(impl.field_order(), got.split(" ")))
+        bad = [(f, vals.get(f), w) for f, w in data["want"].items() if vals.get(f) != w]
+        return bool(bad), str(bad[:2])
     if data["op"] == "order":
         a, b = song_dump(data["a"]), song_dump(data["b"])
         return a != b, common.short(b)
